@@ -6,7 +6,9 @@ AV / To, the fi ligature, accented, Greek; 14 fixed + 10 rotated by VERIF_SEED i
 triples over 8 of them; x the 10 fonts, each by number AND by name x sizes {4, 4.5, 5, 6, 7.5, 9, 9.5, 12,
 18, 24, 36, 48} + {4.2, 5.25, 7.33, 10.8, 13.3} (not multiples of 0.5 pt; thorough: 4..48 step 0.5, 4..12 step 0.1 and a
 few more odd sizes; all 260x260 pairs at the 12 design sizes); units {in, mm, px} x
-dpi {36, 72, 96, 300, 600} on the empty string, the 24 singles and 16 pairs.
+dpi {36, 72, 96, 300, 600} on the empty string, the 24 singles and 16 pairs; strings in the syntax of the library's own
+other layers (LaTeX-style commands with every kind of follower, ^ _ >= <=, RTF control words / groups, page-field
+keywords), each with ALL its prefixes, measured as literal text under the same clauses.
 Oracle (the clauses of the property text): width("") == 0; width >= 0; mm == in*25.4 and px == in*dpi
 (relative 1e-12); number == name (bit-identical); width(s+c) >= width(s); |w(s,a)/a - w(s,b)/b| <= 1% of the
 larger for every pair of sizes; font 9 (monospaced): width == len * advance of a single character;
@@ -117,7 +119,27 @@ def rounded_terms(s: str, font: int, cnt: dict) -> int:
 # --------------------------------------------------------------------------- string sets
 
 
+# --- strings that are syntax of rtflite's OWN other layers (LaTeX-style commands of the text conversion, its ^ _ >= <=
+# tokens, RTF control words / escapes / groups, the page-field keywords).  get_string_width measures a string; the property
+# knows no markup: such a string is literal text, so appending never decreases, Courier is len x advance, units convert.
+# Each string is measured together with ALL its prefixes (the chain "\\", "\\p", "\\pm", "\\pm " ...).
+LATEX_COMMANDS = ["\\pm", "\\mu", "\\in", "\\ge", "\\le", "\\alpha", "\\beta", "\\infty", "\\times"]
+LATEX_FOLLOWERS = ["", " ", "x", "1", "{}", "{x}", " 5", "\\mu"]          # end / blank / letter / digit / brace group / next command
+MARKUP = {
+    "latex": [c + f for c in LATEX_COMMANDS for f in LATEX_FOLLOWERS],
+    "latex-in-text": ["Mean \\pm SD", "5 \\mu g", "x \\in A", "p \\le 0.05", "\\alpha = 0.05", "a\\times b", "(\\beta)"],
+    "tokens": ["^", "_", ">=", "<=", "x^2", "x_1", "a>=b", "a<=b", "x^{2}", "H_2O", ">==", "<=>", "^^", "__"],
+    "rtf": ["\\par", "\\line", "\\u8805*", "{\\b x}", "\\'e9", "\\\\", "\\{", "\\}", "{}", "\\tab x", "\\cell", "\\fs18 x", "{\\i a}b"],
+    "page-fields": ["\\pagenumber", "\\totalpage", "\\pagefield", "\\chpgn", "Page \\pagenumber of \\totalpage",
+                    "{\\field{\\*\\fldinst NUMPAGES }}"],
+}
+MARKUP_QUICK_SIZES = [4, 7.33, 9, 12, 24, 48]
+MARKUP_UNIT_STRINGS = ["\\pm", "\\mu g", "\\alpha{}", "x^2", "a>=b", "\\par", "{\\b x}", "\\pagenumber"]
+
+
 def strings_for(head: str, mode: str, a24: list) -> list:
+    if mode == "prefix-chains":
+        return [head[:k] for k in range(1, len(head) + 1)]
     if mode == "full-pairs":
         return [head] + [head + y for y in ALL]
     out = [head]
@@ -162,6 +184,7 @@ def eval_metric(case: dict) -> dict:
     strings = []
     for h in case["heads"]:
         strings += strings_for(h, mode, a24)
+    strings = list(dict.fromkeys(strings))       # chains share prefixes
     W = measure(font, sizes, strings, cnt, viol, both=case.get("both", True), both_maxlen=case.get("name_maxlen", 3))
     if W is None:
         return {"viol": viol, "nt": False, "cnt": cnt}
@@ -170,6 +193,9 @@ def eval_metric(case: dict) -> dict:
         return {"viol": viol, "nt": False, "cnt": {"calls": cnt["calls"]}, "pid": os.getpid(),
                 "digest": hashlib.md5(repr([W[s, z] for z in sizes for s in [""] + strings]).encode()).hexdigest()}
     cnt["strings"] = len(strings)
+    if mode == "prefix-chains":
+        cnt["markup-strings"] = len(strings)
+        cnt["markup-chains"] = len(case["heads"])
     zmax = max(sizes)
     for z in sizes:
         cnt["empty"] += 1
@@ -354,7 +380,10 @@ def plan(run):
     sizes = THOROUGH_SIZES if thorough else QUICK_SIZES
     dpis = THOROUGH_DPI if thorough else QUICK_DPI
     run.rule = ("strings = 260 singles + 24^2 pairs + 8^3 triples" + (" + all 260^2 pairs (at the 12 design sizes, by number)" if thorough else "")
-                + f"; x 10 fonts by number and by name" + ("" if thorough else " (triples by number only)") + f" x {len(sizes)} sizes {sizes[0]}..{sizes[-1]} incl. sizes that are not multiples of 0.5 pt; unit clause on ('' + 24 singles + 16 pairs) x "
+                + f"; x 10 fonts by number and by name" + ("" if thorough else " (triples by number only)") + f" x {len(sizes)} sizes {sizes[0]}..{sizes[-1]} incl. sizes that are not multiples of 0.5 pt; "
+                f"strings in the syntax of the library's other layers ({sum(len(v) for v in MARKUP.values())} LaTeX-command / conversion-token / RTF / "
+                f"page-field strings, each with all its prefixes) x 10 fonts by number and by name x {len(sizes if thorough else MARKUP_QUICK_SIZES)} sizes; "
+                f"unit clause on ('' + 24 singles + 16 pairs + {len(MARKUP_UNIT_STRINGS)} markup strings) x "
                 f"10 fonts (by number; by name on " + ("all of them" if thorough else "'' + 8 singles") + f") x {len(DESIGN_SIZES)} sizes x 3 units x {len(dpis)} dpi; error clause: {len(BAD_FONTS)} bad fonts and "
                 f"{len(BAD_UNITS)} bad units x all valid other arguments. The pair alphabet is " + repr("".join(a24))
                 + (" (10 of its members rotated by VERIF_SEED)" if not thorough else "")
@@ -365,6 +394,8 @@ def plan(run):
         "the single-character advance of the monospaced font is taken from 'M'; every string, including every single character, must equal len x that advance",
         "'appending never decreases' is checked for every string of the set against its one-shorter prefix",
         "size scaling is checked for every pair of sizes of the size set (not only against a reference size)",
+        "get_string_width measures its argument as literal text: LaTeX-style commands, ^ _ >= <=, RTF control words and page-field keywords are "
+        "characters like any others (the property states the clauses for strings, not for rendered markup)",
     ]
     digests = {}
 
@@ -380,7 +411,12 @@ def plan(run):
         # by number only: the name -> file lookup does not depend on the string (it is covered on the whole set above)
         fcases = [{"font": f, "sizes": DESIGN_SIZES, "heads": [h], "mode": "full-pairs", "both": False} for f in sorted(FONT_NAMES) for h in ALL]
         run.layer("all-pairs-260x260", "mc.props.c20:eval_case", fcases, chunk=2, total=len(fcases), max_samples=1)
-    ustrings = [""] + a24 + [a + b for a in A8[:4] for b in A8[4:]]
+    # strings in the syntax of the library's other layers, each with all its prefixes
+    msizes = sizes if thorough else MARKUP_QUICK_SIZES
+    kcases = [{"font": f, "sizes": msizes, "heads": heads, "mode": "prefix-chains", "name_maxlen": 99, "group": g}
+              for f in sorted(FONT_NAMES) for g, heads in MARKUP.items()]
+    run.layer("library-syntax-as-literal-text", "mc.props.c20:eval_case", kcases, chunk=1, total=len(kcases), max_samples=1)
+    ustrings = [""] + a24 + [a + b for a in A8[:4] for b in A8[4:]] + MARKUP_UNIT_STRINGS
     # quick: by name only on '' and the 8 core singles (the conversion code does not depend on the string)
     ucases = [{"k": "units", "font": f, "size": z, "dpi": dpis, "strings": ustrings, **({} if thorough else {"name_strings": 9})} for f in sorted(FONT_NAMES) for z in DESIGN_SIZES]
     run.layer("units-x-dpi", "mc.props.c20:eval_case", ucases, chunk=1, total=len(ucases))
@@ -416,7 +452,7 @@ def plan(run):
     run.cnt["determinism-batches-in-other-worker"] = stats["other-worker"]
     run.extra["calls"] = run.cnt.get("calls", 0)
     run.extra["pair_alphabet"] = "".join(a24)
-    need = ["calls", "strings", "name-vs-number", "monotone-steps", "scaling-pairs", "mono-checks", "kerned-or-ligated", "empty",
+    need = ["markup-strings", "markup-chains", "calls", "strings", "name-vs-number", "monotone-steps", "scaling-pairs", "mono-checks", "kerned-or-ligated", "empty",
             "unit-triples", "rejected-ValueError", "error-twin-ok", "determinism-batches-equal"]
     if run.workers > 1:
         need.append("determinism-batches-in-other-worker")
